@@ -19,3 +19,11 @@ for l in open('/verif/properties.jsonl'):
 P
 echo "$D"
 sed "s#@DIR@#$D#g" /verif/tools/seed_prompt.txt > "$D/TASK.md"
+if [ "$SUF" != "a" ] && [ -f /tmp/avoid.json ]; then
+  python3 - "$ID" "$D" <<'P'
+import json,sys
+av=json.load(open('/tmp/avoid.json')).get(sys.argv[1],"(none recorded)")
+t=open('/verif/tools/seed_prompt_round2.txt').read().replace('@DIR@',sys.argv[2]).replace('@AVOID@',av)
+open(sys.argv[2]+'/TASK.md','w').write(t)
+P
+fi
